@@ -69,3 +69,229 @@ def configs(quick):
 
 def vcs(ctx):
     return [mask_vc(*c) for c in configs(ctx.quick)]
+
+
+# ---- P rung: the row-minima mask of _string_matching(return_mask=True) for SYMBOLIC shapes (R, H, N) ----------------------------------
+def p_vcs(ctx=None):
+    """C03.P.mask_row_minima. Same dynamic programme as C01.P.dp (contracts/C01_vc.py) in mask mode: after each hypothesis position the
+    row is cut off beyond the reference length (+inf), its minimum taken, and `row == minimum` recorded.
+    Spec: D = Wagner-Fischer table (definition); Dmin(n, j) = minimum of D(n, r', j) over r' <= ref_len (characterised by: a lower
+    bound of every such entry, attained at Dargmin(n, j) <= ref_len - definitional for a finite non-empty set).
+        mask[j, r, n]  <=>  r < ref_len  and  prefix j exists  and  D(n, r, j) = Dmin(n, j).
+    Invariants of the hypothesis loop (skolem batch element n0), k = number of completed iterations:
+        FORALL r <= ref_len.  row[r, n0] is finite and = D(n0, r, min(k, cap))
+        FORALL j <= k, r < ref_len.  masks[j][r, n0]  <=>  prefix j exists and D(n0, r, j) = Dmin(n0, j)
+    Row preservation by induction over r (as in C01.P.dp); the list of masks is abstracted to a function of (j, r, n).
+    Assumed: callee contract of _lens_from_eos, min(dim) contracts, lin_c abstraction, the induction principle."""
+    from vf.pyvc import interp as ip
+    from vf.pyvc import symtensor as stn
+    from vf.pyvc.ctensor import Guarded
+    from vf.pyvc.interp import LoopSpec, PathAbort
+
+    R, H, N, N0, R0, RM0, J0 = z3.Ints("R H N n0 r0 rm0 j0")
+    HL0, RL0 = z3.Ints("hyp_len_n0 ref_len_n0")
+    REF = z3.Function("ref", z3.IntSort(), z3.IntSort(), z3.IntSort())
+    HYP = z3.Function("hyp", z3.IntSort(), z3.IntSort(), z3.IntSort())
+    LR = z3.Function("ref_len", z3.IntSort(), z3.IntSort())
+    LH = z3.Function("hyp_len", z3.IntSort(), z3.IntSort())
+    D = z3.Function("D", z3.IntSort(), z3.IntSort(), z3.IntSort(), z3.RealSort())
+    DMIN = z3.Function("Dmin", z3.IntSort(), z3.RealSort())      # for the skolem batch element: j -> min over r' <= ref_len
+    DARG = z3.Function("Dargmin", z3.IntSort(), z3.IntSort())
+    n, r, j = z3.Ints("n r j")
+    mn = lambda a, b: z3.If(a <= b, a, b)
+    mx = lambda a, b: z3.If(a >= b, a, b)
+    neq = lambda rr, jj, nn: z3.If(REF(rr, nn) != HYP(jj, nn), SUB, z3.RealVal(0))
+    c00 = lambda nn: D(nn, 0, 0) == 0
+    cr0 = lambda nn, rr: z3.Implies(rr >= 1, D(nn, rr, 0) == D(nn, rr - 1, 0) + DEL)
+    c0j = lambda nn, jj: z3.Implies(jj >= 1, D(nn, 0, jj) == D(nn, 0, jj - 1) + INS)
+    crj = lambda nn, rr, jj: z3.Implies(z3.And(rr >= 1, jj >= 1), D(nn, rr, jj) == mn(mn(D(nn, rr, jj - 1) + INS, D(nn, rr - 1, jj - 1) + neq(rr - 1, jj - 1, nn)), D(nn, rr - 1, jj) + DEL))
+    SPEC = [z3.ForAll([n], c00(n)), z3.ForAll([n, r], cr0(n, r)), z3.ForAll([n, j], c0j(n, j)), z3.ForAll([n, r, j], crj(n, r, j))]
+    SPEC_AT = lambda nn, rr, jj: z3.And(c00(nn), cr0(nn, rr), c0j(nn, jj), crj(nn, rr, jj))
+    min_lb = lambda jj, rr: z3.Implies(z3.And(0 <= rr, rr <= RL0), DMIN(jj) <= D(N0, rr, jj))
+    min_att = lambda jj: z3.And(0 <= DARG(jj), DARG(jj) <= RL0, DMIN(jj) == D(N0, DARG(jj), jj))
+    MINSPEC = [z3.ForAll([j, r], min_lb(j, r)), z3.ForAll([j], min_att(j))]
+
+    class AbsMaskList:
+        """masks: one (R, N) mask per hypothesis prefix; element j at (r, n) is fn(j, r, n); `new` = the mask appended in the body"""
+
+        def __init__(self, fn, count):
+            self.fn, self.count, self.new = fn, count, None
+
+        def __vc_getattr__(self, I, name):
+            me = self
+            if name != "append":
+                raise ip.Unsupported("masks.%s" % name)
+
+            class M_:
+                def __vc_call__(s, I2, a, k):
+                    me.new = a[0]
+
+            return M_()
+
+    def make_vc(eos_set, include_eos, batch_first, excl):
+        name = "_string_matching[return_mask; symbolic R,H,N; eos=%s,include_eos=%s,batch_first=%s,exclude_last=%s]" % ("set" if eos_set else "unset", include_eos, batch_first, excl)
+        RLs = (lambda nn: z3.If(LR(nn) == R, R, LR(nn) + 1)) if include_eos else (lambda nn: LR(nn))
+        HLs = (lambda nn: z3.If(LH(nn) == H, H, LH(nn) + 1)) if include_eos else (lambda nn: LH(nn))
+        CAP = mx(HL0 - 1, 0) if excl else HL0
+        LAST = mx(H - 1, 0) if excl else H
+        exists = lambda jj: z3.Or(jj == 0, (jj < HL0) if excl else (jj <= HL0))
+        MASKF = z3.Function("mask_of_prefix", z3.IntSort(), z3.IntSort(), z3.IntSort(), z3.BoolSort())
+
+        def thunk(I):
+            import pydrobert.torch._string as S
+
+            I.stubs.update(stn.stubs())
+            I.stubs["torch.zeros"] = lambda I2, size, dtype=None, device=None, **k: stn.ST.const(tuple(size), False if ct.dtype_tag(dtype, "float") == "bool" else 0, ct.dtype_tag(dtype, "float"))
+
+            def stack(I2, ts, dim=0):
+                if not isinstance(ts, AbsMaskList) or dim != 0:
+                    raise ip.Unsupported("torch.stack other than of the list of masks")
+                return stn.ST((ts.count, R, N), lambda a, b, c: ts.fn(ip.to_z3(a), ip.to_z3(b), ip.to_z3(c)), "bool")
+
+            I.stubs["torch.stack"] = stack
+            if batch_first:
+                ref = stn.ST((N, R), lambda b, a: REF(ip.to_z3(a), ip.to_z3(b)), "long")
+                hyp = stn.ST((N, H), lambda b, a: HYP(ip.to_z3(a), ip.to_z3(b)), "long")
+            else:
+                ref = stn.ST((R, N), lambda a, b: REF(ip.to_z3(a), ip.to_z3(b)), "long")
+                hyp = stn.ST((H, N), lambda a, b: HYP(ip.to_z3(a), ip.to_z3(b)), "long")
+            calls = []
+
+            def lens_contract(I2, a, k):
+                tok = a[0]
+                calls.append(tok)
+                L = LR if len(calls) == 1 else LH
+                I2.ex.oblige("lens.called_on_time_major_tensor_dim0", z3.And(z3.BoolVal(a[2] == 0), ip.to_z3(tok.shape[0]) == (R if len(calls) == 1 else H), ip.to_z3(tok.elem(R0, N0)) == (REF if len(calls) == 1 else HYP)(R0, N0)))
+                bound = lambda nn: z3.Implies(z3.And(0 <= nn, nn < N), z3.And(0 <= L(nn), L(nn) <= ip.to_z3(tok.shape[0])))
+                I2.ex.assume(z3.ForAll([n], bound(n)))
+                I2.ex.instance(bound(N0))
+                return stn.ST((N,), lambda a_: L(ip.to_z3(a_)), "long")
+
+            I.contracts["pydrobert.torch._string._lens_from_eos"] = lens_contract
+            I.ex.ghost["any_points"] = {1: [(N0,)], 2: [(0, N0)]}
+            if not eos_set:
+                I.ex.assume(z3.ForAll([n], z3.And(LR(n) == R, LH(n) == H)))
+                I.ex.instance(z3.And(LR(N0) == R, LH(N0) == H))
+            return I.call(S._string_matching, [ref, hyp, EOS if eos_set else None, include_eos, batch_first, INS, DEL, SUB, False], dict(return_mask=True, exclude_last=excl))
+
+        def cell(row, rr):
+            return Guarded.split(row.elem(rr, N0))
+
+        def at(row, rr, jj):  # finite and equal to the table
+            p, v = cell(row, rr)
+            fin = z3.Not(p) if ip.is_z3(p) else z3.BoolVal(not p)
+            return z3.And(fin, ip.to_z3(v) == D(N0, rr, jj))
+
+        row_at = lambda row, rr, jj: z3.Implies(z3.And(0 <= rr, rr <= RL0), at(row, rr, jj))
+        B = lambda x: x if ip.is_z3(x) else z3.BoolVal(bool(x))
+        mask_ok = lambda m, jj, rr: z3.Implies(z3.And(0 <= rr, rr < RL0), B(m) == z3.And(exists(jj), D(N0, rr, jj) == DMIN(jj)))
+        list_at = lambda k, jj, rr: z3.Implies(z3.And(0 <= jj, jj <= k), mask_ok(MASKF(jj, rr, N0), jj, rr))
+
+        class DPLoop(LoopSpec):
+            def run(self, I, s, f):
+                row0 = f.locals["row"]
+                same = z3.And(ip.to_z3(f.locals["hyp_lens"].elem(N0)) == HL0, ip.to_z3(f.locals["ref_lens"].elem(N0)) == RL0)
+                I.ex.oblige("dp.lengths_are_spec_lengths", same)
+                I.ex.assume(same)
+                # row initialisation, by induction over r
+                g_base = at(row0, z3.IntVal(0), z3.IntVal(0))
+                g_step = z3.Implies(z3.And(1 <= R0, R0 <= RL0, at(row0, R0 - 1, z3.IntVal(0))), at(row0, R0, z3.IntVal(0)))
+                I.ex.instance(SPEC_AT(N0, R0, z3.IntVal(0)))
+                for x in stn.lin_instances(I, R0 - 1):
+                    I.ex.instance(x)
+                I.ex.oblige("dp.init.base", g_base)
+                I.ex.oblige("dp.init.step", g_step)
+                I.ex.assume(z3.ForAll([r], row_at(row0, r, z3.IntVal(0))))
+                # lemma: the first column is positive below the first row (induction over r), hence its minimum is D(0, 0) = 0
+                pos = lambda rr: z3.Implies(rr >= 1, D(N0, rr, 0) > 0)
+                I.ex.instance(SPEC_AT(N0, z3.IntVal(1), z3.IntVal(0)))
+                I.ex.oblige("first_column.positive.base", pos(z3.IntVal(1)))
+                I.ex.oblige("first_column.positive.step", z3.Implies(z3.And(R0 >= 1, pos(R0)), pos(R0 + 1)))
+                I.ex.instance(SPEC_AT(N0, R0 + 1, z3.IntVal(0)))
+                I.ex.assume(z3.ForAll([r], pos(r)))
+                for x in (pos(RM0), pos(DARG(z3.IntVal(0))), min_lb(z3.IntVal(0), z3.IntVal(0)), min_att(z3.IntVal(0)), SPEC_AT(N0, RM0, z3.IntVal(0))):
+                    I.ex.instance(x)
+                masks0 = f.locals["masks"]
+                I.ex.oblige("mask.init.one_mask", z3.BoolVal(isinstance(masks0, list) and len(masks0) == 1))
+                I.ex.oblige("mask.init", z3.Implies(z3.And(0 <= RM0, RM0 < R), mask_ok(masks0[0].elem(RM0, N0), z3.IntVal(0), RM0)))
+                # havoc: row (possibly +inf beyond the reference length from the second iteration on) and the list of masks
+                ROWV = stn._fresh("row", z3.IntSort(), z3.IntSort(), z3.RealSort())
+                ROWP = stn._fresh("row_is_inf", z3.IntSort(), z3.IntSort(), z3.BoolSort())
+                f.locals["row"] = stn.ST((R + 1, N), lambda a, b: Guarded(ROWP(ip.to_z3(a), ip.to_z3(b)), ROWV(ip.to_z3(a), ip.to_z3(b))), "float")
+                if I.ex.choose(2) == 0:
+                    k = I.ex.fresh("int", "iter")
+                    I.ex.assume(z3.And(0 <= k, k < LAST))
+                    rowk = f.locals["row"]
+                    I.ex.assume(z3.ForAll([r], row_at(rowk, r, mn(k, CAP))))
+                    for rr in (R0, R0 - 1, z3.IntVal(0)):
+                        I.ex.instance(row_at(rowk, rr, mn(k, CAP)))
+                    lst = AbsMaskList(MASKF, k + 1)
+                    f.locals["masks"] = lst
+                    it = I.eval(s.iter, f)
+                    I.ex.oblige("dp.loop.range", z3.And(ip.to_z3(it.lo) == 1, mx(ip.to_z3(it.hi) - 1, 0) == LAST, ip.to_z3(it.step) == 1))
+                    I.assign(s.target, k + 1, f)
+                    n_min = len(I.ex.ghost.get("mins", []))
+                    I.exec_block(s.body, f)
+                    row1 = f.locals["row"]
+                    jn = mn(k + 1, CAP)
+                    g_b = at(row1, z3.IntVal(0), jn)
+                    g_i = z3.Implies(z3.And(1 <= R0, R0 <= RL0, at(row1, R0 - 1, jn)), at(row1, R0, jn))
+                    g_m = None
+                    if lst.new is not None:
+                        g_m = z3.Implies(z3.And(0 <= RM0, RM0 < R), mask_ok(lst.new.elem(RM0, N0), k + 1, RM0))
+                    I.ex.instance(SPEC_AT(N0, R0, jn))
+                    new_mins = I.ex.ghost.get("mins", [])[n_min:]
+                    for mm in new_mins:
+                        if len(mm["t"].shape) != 3:
+                            continue  # (the vectorised deletion step is the min over dim 1 of a rank-3 tensor)
+                        w_ = lambda rr: mm["w"](rr, N0)
+                        for o, kk in (([R0, N0], R0), ([R0, N0], w_(R0 - 1)), ([R0 - 1, N0], w_(R0)), ([R0 - 1, N0], R0 - 1), ([z3.IntVal(0), N0], z3.IntVal(0))):
+                            I.ex.instance(mm["lb"](o, kk))
+                        for o in ([R0, N0], [R0 - 1, N0], [z3.IntVal(0), N0]):
+                            I.ex.instance(mm["att"](o))
+                        for dist in (R0 - 1 - w_(R0), R0 - 1 - w_(R0 - 1)):
+                            for x in stn.lin_instances(I, dist):
+                                I.ex.instance(x)
+                    I.ex.oblige("dp.step.base", g_b)
+                    I.ex.oblige("dp.step.ind", g_i)
+                    I.ex.assume(z3.ForAll([r], row_at(row1, r, jn)))  # conclusion of the induction over r
+                    # the recorded mask: the code's column minimum is the spec's minimum
+                    I.ex.oblige("mask.appended_once_per_iteration", z3.BoolVal(lst.new is not None))
+                    if g_m is not None:
+                        for mm in new_mins:
+                            if len(mm["t"].shape) != 2:
+                                continue  # the minimum over the reference index of the (R + 1, N) row
+                            wc, o = mm["w"](N0), [N0]
+                            for x in (mm["att"](o), mm["lb"](o, DARG(k + 1)), mm["lb"](o, RM0), row_at(row1, wc, jn), row_at(row1, DARG(k + 1), jn), row_at(row1, RM0, jn),
+                                      min_lb(k + 1, wc), min_lb(k + 1, RM0), min_att(k + 1)):
+                                I.ex.instance(x)
+                        I.ex.oblige("mask.step", g_m)
+                    raise PathAbort()
+                I.ex.assume(z3.ForAll([r], row_at(f.locals["row"], r, mn(LAST, CAP))))
+                jj, rr = z3.Ints("j_l r_l")
+                I.ex.assume(z3.ForAll([jj, rr], list_at(LAST, jj, rr)))
+                I.ex.instance(list_at(LAST, J0, RM0))
+                f.locals["masks"] = AbsMaskList(MASKF, LAST + 1)
+
+        loop = DPLoop("dp.loop", None, None, None, {})
+
+        def post(p):
+            if not api.returns(p) or not hasattr(p.value, "elem"):
+                return False
+            shape = tuple(p.value.shape)
+            got = p.value.elem(J0, RM0, N0)
+            want = z3.And(RM0 < RL0, exists(J0), D(N0, RM0, J0) == DMIN(J0))
+            return [("result_shape", z3.And(z3.BoolVal(len(shape) == 3), ip.to_z3(shape[0]) == LAST + 1, ip.to_z3(shape[1]) == R, ip.to_z3(shape[2]) == N)),
+                    ("mask_iff_row_minimum_within_reference_length", (got if ip.is_z3(got) else z3.BoolVal(bool(got))) == want)]
+
+        pre = [INS > 0, DEL > 0, SUB > 0, z3.Not(z3.And(INS == DEL, DEL == SUB)), R >= 1, H >= 0, N >= 1, 0 <= N0, N0 < N, 0 <= R0, HL0 == HLs(N0), RL0 == RLs(N0),
+               0 <= J0, J0 <= LAST, 0 <= RM0, RM0 < R] + SPEC + MINSPEC
+        return VC("C03.P.mask_row_minima", name, M, "_string_matching", thunk, pre=pre, posts=[("final", post)], loops={("_string_matching", 0): loop},
+                  inputs={"R": R, "H": H, "N": N}, timeout_ms=20000,
+                  assumptions=["Wagner-Fischer recurrence = minimum over edit scripts (definition of D); Dmin / Dargmin = minimum and a minimiser of a finite non-empty column (definitional)",
+                               "min(dim) contract: lower bound of the finite entries, attained at a finite entry; any() contract; tensors as index functions (vf/pyvc/symtensor.py); +inf tracked through guarded terms",
+                               "index * cost products abstracted to lin_c(i); float arithmetic treated as real arithmetic; the list of masks abstracted to a function of (prefix, reference position, batch element)",
+                               "inductions over the reference index and over the loop applied outside the solver; callee contract of _lens_from_eos (C01.P.lens_first_eos)",
+                               "unequal costs (with equal costs the code runs the same programme on unit costs - covered per shape by the S rung); R >= 1 (a zero-size reference dimension is outside this rung); the empty hypothesis combined with exclude_last is outside C03's statement"])
+
+    return [make_vc(True, False, False, False), make_vc(False, False, False, False), make_vc(True, True, True, False), make_vc(True, False, False, True)]
